@@ -204,4 +204,24 @@ theorem padded : PaddedRoot dim (ketTree st) K B where
     have h' : τ (Leg.gBra 1 0) ≠ 0 := h
     simp [B, b1, b3, leaf2, leaf3, Expr.eval, sumPairs, braEdge, upd, gRoot, h', sumR_zero]
 
+/-- the padded root tensors themselves: leaves of `K` / `B` that vanish off index 0 of the root-bond leg -/
+theorem padded_tensors :
+    K.SWF ∧ B.SWF ∧ Leg.gKet (ketTree st).id 0 ∈ K.free ∧ Leg.gBra (ketTree st).id 0 ∈ B.free ∧
+    (∃ kl ∈ K.leaves, ∀ ρ : Asg Leg, ρ (Leg.gKet (ketTree st).id 0) ≠ 0 → kl.2 ρ = 0) ∧
+    (∃ bl ∈ B.leaves, ∀ ρ : Asg Leg, ρ (Leg.gBra (ketTree st).id 0) ≠ 0 → bl.2 ρ = 0) ∧
+    0 < dim rootKetLeg ∧ 0 < dim rootBraLeg := by
+  refine ⟨K_swf, B_swf, by decide, by decide, ?_, ?_, by decide, by decide⟩
+  · refine ⟨([.gKet 1 0, .gKet 1 3, .gKetPhys 1], fun σ => gRoot (σ (.gKet 1 0)) (σ (.gKet 1 3)) (σ (.gKetPhys 1))),
+      ?_, ?_⟩
+    · simp [K, k1, leaf3, Expr.leaves]
+    · intro ρ h
+      have h' : ρ (Leg.gKet 1 0) ≠ 0 := h
+      simp [gRoot, h']
+  · refine ⟨([.gBra 1 0, .gBra 1 3, .gBraPhys 1], fun σ => gRoot (σ (.gBra 1 0)) (σ (.gBra 1 3)) (σ (.gBraPhys 1))),
+      ?_, ?_⟩
+    · simp [B, b1, leaf3, Expr.leaves]
+    · intro ρ h
+      have h' : ρ (Leg.gBra 1 0) ≠ 0 := h
+      simp [gRoot, h']
+
 end Ptn.C16.Ttndo.Demo
